@@ -14,6 +14,7 @@ macro_rules! props {
 props! {
     "C01" => c01,
     "C02" => c02,
+    "C03" => c03,
     "C04" => c04,
     "C05" => c05,
     "C06" => c06,
@@ -47,6 +48,7 @@ pub fn replay(path: &str) -> i32 {
         "C20" => c20::replay(&v["replay"]),
         "C02" => c02::replay(&v["replay"]),
         "C18" => c18::replay(&v["replay"]),
+        "C03" => c03::replay(&v["replay"]),
         _ => {
             println!("{}", serde_json::to_string_pretty(&v).unwrap());
             crate::elog!("no executable replay for {}; the file lists the literal inputs", id);
@@ -58,6 +60,7 @@ pub fn replay(path: &str) -> i32 {
 pub fn child(args: &[String]) -> i32 {
     match args.first().map(|s| s.as_str()) {
         Some("c18") => c18::child(&args[1..]),
+        Some("c03base") | Some("c03sched") => c03::child(args),
         _ => 2,
     }
 }
